@@ -161,7 +161,7 @@ def shape_spans(node, g, text, keep_all, ph):
                     ch.append(('tok', ev[1], text[ev[2]:ev[3]], (ev[2], ev[3])))
             elif ev[0] == 'none':
                 if ph:
-                    ch.extend([None] * refsem.maybe_width(ev[1], keep_all or rule.mod == '!'))
+                    ch.extend([None] * refsem.maybe_width(ev[1], keep_all or '!' in rule.mod))
             else:
                 sub = sh(ev)
                 if sub[0] == 'splice':
@@ -171,7 +171,7 @@ def shape_spans(node, g, text, keep_all, ph):
                 else:
                     ch.append(sub)
         me = span_of(nd)
-        if rule.mod == '?' and not alias and len(ch) == 1:
+        if '?' in rule.mod and not alias and len(ch) == 1:
             c = ch[0]
             cspan = None if c is None else c[3]
             if c is None or c[0] == 'tok':
@@ -186,7 +186,7 @@ def shape_spans(node, g, text, keep_all, ph):
 
 
 def compare_meta(ref, t, text, bad, path='start', family='basic'):
-    """Walk the reference shaped tree and lark's tree in parallel."""
+    """Walk the reference shaped tree and lark's tree in parallel (the reference tree is finite, so is the walk)."""
     if ref is None or ref[0] == 'tok':
         return True
     if not isinstance(t, Tree) or str(t.data) != ref[1] or len(t.children) != len(ref[2]):
